@@ -974,9 +974,12 @@ class Server:
             timeout=self.path_timeout,
             connection=connection,
         )
+        writer_task = asyncio.create_task(
+            self.response_writer(stream, response_queue),
+        )
         pending = {
             asyncio.create_task(self.greeting(connection, "")),
-            asyncio.create_task(self.response_writer(stream, response_queue)),
+            writer_task,
             asyncio.create_task(self.parse_command(stream)),
         }
         self.connections[key] = connection
@@ -1014,7 +1017,11 @@ class Server:
                     if isinstance(result, bool):
                         if not result:
                             # a peer which does not read the last replies
-                            # must not hold the session for ever
+                            # must not hold the session for ever - and when
+                            # the writer has gone already nobody will take
+                            # them out of the queue
+                            if writer_task.done():
+                                return
                             try:
                                 await asyncio.wait_for(
                                     response_queue.join(),
